@@ -7,4 +7,4 @@ NOT_APPLICABLE = {}
 
 # properties whose check is finished, reviewed and registered in MANIFEST.json; setup.sh builds exactly their
 # Coq files (props/<id>.vo + MODEL_TARGETS), gen_manifest.py lists exactly them as checks
-READY = ["C01", "C02", "C03", "C04", "C05", "C06", "C07", "C08", "C09", "C10", "C12", "C13", "C14", "C15", "C16", "C17", "C18", "C19", "C20"]
+READY = ["C01", "C02", "C03", "C04", "C05", "C06", "C07", "C08", "C09", "C10", "C11", "C12", "C13", "C14", "C15", "C16", "C17", "C18", "C19", "C20"]
